@@ -135,6 +135,12 @@ def run_case(case):
 
 @st.composite
 def cases(draw, tier):
+    if draw(st.integers(0, 9)) == 0:
+        from .c03 import nested_move_case
+
+        c = draw(nested_move_case(tier))  # failures while an outer self-transition has a nested, state-changing event
+        c["pairs"] = []
+        return c
     provs = draw(st.sampled_from([("machine",), ("machine", "model"), ("machine", "model", "l0")]))
     async_mode = draw(st.sampled_from(["none", "none", "all", "mixed"]))
     spec = draw(gen.machine_spec(max_states=4, max_extra=5, providers=provs, async_mode=async_mode, sends=True, validators=True))
